@@ -15,7 +15,7 @@ old = {}
 if only:
     for line in open(os.path.join(VERIF, 'seeded', 'REPORT.md')):
         c = [x.strip() for x in line.strip().strip('|').split(' | ')]
-        if len(c) == 8 and re.match(r'C\d\d-\d+$', c[0]):
+        if len(c) == 8 and re.match(r'C\d\d-\w+$', c[0]):
             old[c[0]] = (c[0], c[1], c[2], c[3], int(c[4]), int(c[5]), int(c[6]), c[7])
 for d in sorted(os.listdir(os.path.join(VERIF, 'seeded'))):
     full = os.path.join(VERIF, 'seeded', d)
